@@ -1,60 +1,48 @@
 (* C14 — a connected replica converges to the primary's state.
-   Model: ReplProto.v (round-based protocol as the code behaves); proofs: ReplProtoProofs.v.
-   The statement at full strength (converges_statement: every history, every running replica
-   with the link up, every fair schedule) is FALSE of the faithful model; what is proved is the
-   guarded theorem C14_converges_partial (guards: no log rotation on the primary; the last write is
-   not the one numbered like the session start) and one witness per class of non-convergent histories
-   (each replayed against the real code: corpus/C14/kf-*.case). *)
-From KV Require Import Bytes Spec WalCodec ReplProto ReplProtoProofs.
+   Model: ReplProto.v (round-based protocol as the code behaves since cb2d442, 7f7e08d, 2996cf8,
+   f62340e, 5fc1d1b); proofs: ReplProtoProofs.v.  The protocol of the pinned tree and the
+   histories on which it never converged are kept in ReplProtoBefore.v (module BeforeFixes);
+   each of them is a corpus case (corpus/C14/fixed-*.case). *)
+From KV Require Import Bytes Spec WalCodec ReplProto ReplProtoProofs ReplProtoBefore.
 Open Scope N_scope.
 
-Theorem C14_converges_partial : forall evs cs F,
-  Forall noflush evs ->
+(* the property at full strength: every history of the primary (writes, deletes, transactions,
+   flushes / log rotations) and of the replica (join before, during or after the writes, stop and
+   start, link cut and healed); every delivery schedule with at most F swallowed or side-lined
+   deliveries; bound in rounds; stable afterwards *)
+Theorem C14_converges : forall evs cs F,
   let p := fst (run evs sys_init) in
   let r := snd (run evs sys_init) in
-  r_mode r <> RDown -> r_link r = true -> ~ last_write_unsent p r ->
+  connected r ->
   (bads cs <= F)%nat ->
   (2 * N.to_nat (p_next p - r_exp r) + 3 + F <= length cs)%nat ->
   views_agree p (ticks cs p r) = true /\
   forall cs', ticks cs' p (ticks cs p r) = ticks cs p r.
-Proof. exact converges_partial. Qed.
-Print Assumptions C14_converges_partial.
+Proof. exact converges. Qed.
+Print Assumptions C14_converges.
 
-Theorem C14_rotation_refuted :
-  let p := fst (run w_rotation sys_init) in
-  let r := snd (run w_rotation sys_init) in
-  connected r /\ ~ last_write_unsent p r /\
-  forall cs, views_agree p (ticks cs p r) = false.
-Proof. exact rotation_refuted. Qed.
-Print Assumptions C14_rotation_refuted.
+Theorem C14_converges_statement : converges_statement.
+Proof. exact converges_statement_holds. Qed.
+Print Assumptions C14_converges_statement.
 
-Theorem C14_join_after_rotation_refuted :
-  let p := fst (run w_join_after_rotation sys_init) in
-  let r := snd (run w_join_after_rotation sys_init) in
-  connected r /\ forall cs, views_agree p (ticks cs p r) = false.
-Proof. exact join_after_rotation_refuted. Qed.
-Print Assumptions C14_join_after_rotation_refuted.
+(* the four former witnesses of non-convergence settle under the repaired protocol *)
+Theorem C14_former_witnesses_converge :
+  settled w_rotation = true /\ settled w_join_after_rotation = true /\
+  settled w_last_write = true /\ settled w_tx_cut = true.
+Proof. exact former_witnesses_converge. Qed.
+Print Assumptions C14_former_witnesses_converge.
 
-Theorem C14_last_write_refuted :
-  let p := fst (run w_last_write sys_init) in
-  let r := snd (run w_last_write sys_init) in
-  connected r /\ Forall noflush w_last_write /\
-  last_write_unsent p r /\ forall cs, views_agree p (ticks cs p r) = false.
-Proof. exact last_write_refuted. Qed.
-Print Assumptions C14_last_write_refuted.
+(* regression notes: what was proved about the pinned tree *)
+Theorem C14_before_rotation_refuted :
+  let p := fst (BeforeFixes.run BeforeFixes.w_rotation BeforeFixes.sys_init) in
+  let r := snd (BeforeFixes.run BeforeFixes.w_rotation BeforeFixes.sys_init) in
+  BeforeFixes.connected r /\ forall cs, BeforeFixes.views_agree p (BeforeFixes.ticks cs p r) = false.
+Proof. exact BeforeFixes.rotation_refuted. Qed.
+Print Assumptions C14_before_rotation_refuted.
 
-(* D18e (a transaction cut by the 100-entry response limit) was repaired by f62340e; the former
-   witness now converges (regression example tx_cut_now_converges in ReplProtoProofs.v,
-   corpus/C14/fixed-tx-*.case) *)
-Theorem C14_tx_cut_fixed :
-  let p := fst (run w_tx_cut sys_init) in
-  let r := snd (run w_tx_cut sys_init) in
-  connected r /\ Forall noflush w_tx_cut /\ ~ last_write_unsent p r /\
-  view_get (r_store r) [200] = Some [1] /\ view_get (r_store r) [201] = Some [2] /\
-  views_agree p r = true.
-Proof. exact tx_cut_now_converges. Qed.
-Print Assumptions C14_tx_cut_fixed.
-
-Theorem C14_converges_statement_refuted : ~ converges_statement.
-Proof. exact converges_statement_refuted. Qed.
-Print Assumptions C14_converges_statement_refuted.
+Theorem C14_before_last_write_refuted :
+  let p := fst (BeforeFixes.run BeforeFixes.w_last_write BeforeFixes.sys_init) in
+  let r := snd (BeforeFixes.run BeforeFixes.w_last_write BeforeFixes.sys_init) in
+  BeforeFixes.connected r /\ forall cs, BeforeFixes.views_agree p (BeforeFixes.ticks cs p r) = false.
+Proof. exact BeforeFixes.last_write_refuted. Qed.
+Print Assumptions C14_before_last_write_refuted.
